@@ -1290,17 +1290,28 @@ pub fn extended_instance_case(rng: &mut Rng, out: &mut Out) {
     if !schema.is_object() {
         return;
     }
-    // $defs must sit at the root
-    if schema.get("$defs").is_none() {
-        fn find_defs(v: &Value) -> Option<Value> {
+    // $defs must sit at the root: every nested definition table is merged into the root's
+    {
+        fn collect_defs(v: &Value, acc: &mut Map<String, Value>) {
             match v {
-                Value::Object(o) => o.get("$defs").cloned().or_else(|| o.values().find_map(find_defs)),
-                Value::Array(a) => a.iter().find_map(find_defs),
-                _ => None,
+                Value::Object(o) => {
+                    if let Some(Value::Object(d)) = o.get("$defs") {
+                        for (k, x) in d {
+                            acc.entry(k.clone()).or_insert_with(|| x.clone());
+                        }
+                    }
+                    for x in o.values() {
+                        collect_defs(x, acc);
+                    }
+                }
+                Value::Array(a) => a.iter().for_each(|x| collect_defs(x, acc)),
+                _ => {}
             }
         }
-        if let Some(d) = find_defs(&schema) {
-            schema.as_object_mut().unwrap().insert("$defs".into(), d);
+        let mut acc = Map::new();
+        collect_defs(&schema, &mut acc);
+        if !acc.is_empty() {
+            schema.as_object_mut().unwrap().insert("$defs".into(), Value::Object(acc));
         }
     }
     // our own validator must agree that the pair is valid (else the generator is at fault)
